@@ -29,10 +29,12 @@ vars == <<l, st, aux, mode, rej, stats>>
 Tags == {"Init.hs", "Init.forged", "Init.nil", "Init.free", "Write", "Write.dead", "Write.split", "Write.multi", "Write.zero",
          "Read", "Read.data", "Read.partial", "Read.zero", "Read.timeout", "Read.eof", "Read.error", "Read.alert", "Read.kuresp",
          "Read.peek", "Read.sticky", "KeyUpdate", "Close", "Mutate", "Keystream", "Keystream.err", "KsLaw", "Nonce",
-         "Ramp.grow", "Ramp.full", "Ramp.off"}
+         "Ramp.grow", "Ramp.full", "Ramp.off", "Proc", "Enable", "Enable.again", "Init.weakforged"}
 
 NoKs == [has |-> FALSE, ep |-> 0, seq |-> 0, n |-> 0, ks |-> <<>>]
-NoAux == [sc |-> 0, pat |-> [x \in Sides |-> <<0>>], run |-> 1, ks |-> [x \in Sides |-> NoKs], khist |-> {}]
+\* proc: the process-global suite table state (Record!ProcInit ...) of the harness process the events come from;
+\* it survives from scenario to scenario within one process history
+NoAux == [sc |-> 0, pat |-> [x \in Sides |-> <<0>>], run |-> 1, ks |-> [x \in Sides |-> NoKs], khist |-> {}, proc |-> ProcInit]
 
 ErrClass(e) == IF e = "" THEN "none" ELSE IF e = "EOF" THEN "eof" ELSE IF e = "i/o timeout" THEN "timeout" ELSE "error"
 
@@ -77,11 +79,13 @@ ClearKs(a, ev) == [a EXCEPT !.ks = [x \in Sides |-> IF ev.wrote[x] # <<>> THEN N
 (***************************************************************************)
 (* Init                                                                    *)
 (***************************************************************************)
-StepInit(ev) ==
-  LET a0 == [NoAux EXCEPT !.sc = ev.sc, !.pat = [x \in Sides |-> ev.pat[x]], !.run = ev.run]
+\* ev.proc: the scenario is one call of a process history (the table is what the calls so far made it);
+\* otherwise the process called EnableWeakCiphers first thing iff ev.weak
+StepInit1(a, ev, weak) ==
+  LET a0 == [NoAux EXCEPT !.sc = ev.sc, !.pat = [x \in Sides |-> ev.pat[x]], !.run = ev.run, !.proc = a.proc]
       nil == InitNil(ClassProfile("tls12")) IN
   IF ev.mode = "hs" THEN
-     IF ~Negotiable(T, ev.vers, ev.suite, ev.weak) THEN Bad("scenario-not-negotiable", nil, a0)
+     IF ~Negotiable(T, ev.vers, ev.suite, weak) THEN Bad("scenario-not-negotiable", nil, a0)
      ELSE IF ev.cerr # "" \/ ev.serr # "" THEN Bad("handshake-failed", nil, a0)
      ELSE IF ev.cvers # ev.vers \/ ev.svers # ev.vers \/ ev.csuite # ev.suite \/ ev.ssuite # ev.suite THEN Bad("negotiated-something-else", nil, a0)
      \* dynamic record sizing as the scenario configured it; the handshake flights count for bytesSent
@@ -89,14 +93,20 @@ StepInit(ev) ==
           IF ~StateOK(s, ev.st) THEN Bad("init-counters", nil, a0)
           ELSE Out("", s, a0, {"Init.hs"}, FALSE)
   ELSE \* forged: MakeConnWithCompleteHandshake on both ends
-     IF ~Supported(T, ev.suite, ev.weak) THEN
+     IF ~Supported(T, ev.suite, weak) THEN
         IF ev.cnil /\ ev.snil THEN Out("", nil, a0, {"Init.nil"}, TRUE) ELSE Bad("unsupported-suite-not-nil", nil, a0)
      ELSE IF ev.vers \notin OldVersions \/ ev.vers \notin ValidVersions(Info(T, ev.suite)) THEN Out("", nil, a0, {"Init.free"}, TRUE)
      ELSE IF ev.cnil \/ ev.snil THEN Bad("supported-suite-nil", nil, a0)
      \* (a forged connection has a default Config: dynamic record sizing on, nothing sent yet)
      ELSE LET s == InitForged(Profile(T, ev.vers, ev.suite), TRUE) IN
           IF ~StateOK(s, ev.st) THEN Bad("init-counters", nil, a0)
-          ELSE Out("", s, a0, {"Init.forged"}, FALSE)
+          ELSE Out("", s, a0, {"Init.forged"} \cup (IF ev.suite \notin Ids(T.base) THEN {"Init.weakforged"} ELSE {}), FALSE)
+StepInit(a, ev) == StepInit1(a, ev, IF ev.proc THEN a.proc.weak ELSE ev.weak)
+
+\* a fresh harness process / a call of EnableWeakCiphers in it
+StepProc(s, a, ev) == Out("", s, [a EXCEPT !.proc = ProcInit], {"Proc"}, TRUE)
+StepEnable(s, a, ev) == Out("", s, [a EXCEPT !.proc = ProcEnableWeak(a.proc)],
+                            {"Enable"} \cup (IF a.proc.weak THEN {"Enable.again"} ELSE {}), TRUE)
 
 (***************************************************************************)
 (* Write                                                                   *)
@@ -242,7 +252,9 @@ StepKeystream(s, a, ev) ==
                  [x |-> ev.x, ep |-> Keystream(s, ev.x).ep, seq |-> Keystream(s, ev.x).seq, n |-> ev.n, pre |-> Pre(ev.ks, ev.n)])
 
 Step(s, a, ev) ==
-  CASE ev.ev = "Init" -> StepInit(ev)
+  CASE ev.ev = "Init" -> StepInit(a, ev)
+    [] ev.ev = "Proc" -> StepProc(s, a, ev)
+    [] ev.ev = "Enable" -> StepEnable(s, a, ev)
     [] ev.ev = "Write" -> StepWrite(s, a, ev)
     [] ev.ev = "Read" -> StepRead(s, a, ev)
     [] ev.ev = "KeyUpdate" -> StepKeyUpdate(s, a, ev)
@@ -257,7 +269,7 @@ Step(s, a, ev) ==
 Init == /\ l = 1 /\ st = InitNil(ClassProfile("tls12")) /\ aux = NoAux /\ mode = "skip" /\ rej = {}
         /\ stats = [t \in Tags |-> 0]
 
-Judged == l <= Len(Trace) /\ (Trace[l].ev = "Init" \/ mode = "run")
+Judged == l <= Len(Trace) /\ (Trace[l].ev \in {"Init", "Proc", "Enable"} \/ mode = "run")
 
 \* the event is explained by Record
 Good == /\ Judged
